@@ -10,5 +10,5 @@ PROP = "C01"
 
 
 def run(tier, seed):
-    return speccheck.run(PROP, tier, seed, ["general", "rowlevel", "agg", "window", "join", "subquery", "union", "slices", "tall", "scen_window_nulls", "scen_join_hidden", "scen_selfjoin_agg", "scen_join_suffix", "scen_rename_hidden", "scen_union_const", "scen_union_distinct", "scen_const_key", "scen_join_all", "scen_subq_hidden", "scen_summarize_key"], 400, 20000, also=("C08",),
+    return speccheck.run(PROP, tier, seed, ["general", "rowlevel", "agg", "window", "join", "subquery", "union", "slices", "tall", "scen_window_nulls", "scen_join_hidden", "scen_selfjoin_agg", "scen_join_suffix", "scen_rename_hidden", "scen_union_const", "scen_union_distinct", "scen_const_key", "scen_join_all", "scen_subq_group", "scen_union_agg_right", "scen_subq_hidden", "scen_summarize_key"], 400, 20000, also=("C08",),
                          assumptions=["values restricted to the domain of DESIGN.md section 4"])
